@@ -443,19 +443,12 @@ def run(ctx):
 
     # ------------------------------------------------------------------ R1.7 generated _unpack None-guards
     ctx.rule("R1.7", "in the generated _unpack code a field conversion is skipped only when the value `is None` (never by truthiness)")
-    frags = []
-    for n in walk_no_nested(gen):
-        if isinstance(n, (ast.Constant, ast.BinOp, ast.JoinedStr)) and not isinstance(getattr(n, "_parent", None), ast.BinOp):
-            try:
-                v = prog.fold(base, n)
-            except NotConst:
-                continue
-            if isinstance(v, str) and "._unpack(" in v:
-                frags.append((n, v))
+    from .c05 import generated_fragments
+
+    frags = [(n, v) for n, v in generated_fragments(prog, base, gen) if "._unpack(" in v]
     ctx.floor("R1.7", "generated fragments that call a field type's _unpack", len(frags), 2)
     for n, v in frags:
-        code = "".join((lit or "") + ("x" if f is not None else "") for lit, f, s, c in string.Formatter().parse(v)).replace("\t", "    ")
-        code = textwrap.dedent(code).strip().rstrip(",")
+        code = textwrap.dedent(v).strip().rstrip(",")
         tree = None
         for attempt in (code, "(" + code + ")", code + ")", "f(" + code + ")"):
             try:
